@@ -98,21 +98,9 @@ Print Assumptions C17_emit_module_ext.
     entry ([unique_item_paths]) and settings without recursive derives; [teq], [teq'] are
     arbitrary (in particular [types_equal r] and [types_equal (renumber pi r)]).
 
-    Full statement (DESIGN.md C17_permutation_tokens), not proved here:
-      forall pi r s, renumbering (N.of_nat (length r)) pi -> coincidence_free r s ->
-        generate r s (types_equal r) = Ok m1 ->
-        generate (renumber pi r) s (types_equal (renumber pi r)) = Ok m2 ->
-        emit_module s m1 = emit_module s m2
-    where [coincidence_free] allows SEVERAL item-eligible entries per path provided their IRs
-    agree up to the ids inside [TParam] and the docs (skeleton-consistent families).
-    What is missing: (1) for a same-path family the kept item is the first entry's IR in the
-    respective order, so one needs "skeleton-consistent => type_ir_tokens of any two members are
-    equal" (docs must agree too, or docs off); with C17_item_tokens_equal this is a statement
-    about [rename_ir]-classes that still has to be lifted from single entries to families;
-    (2) recursive derives: [flatten] accumulates derive lists in registry order, so the two
-    runs give permuted derive lists per path; equality of [derives_tokens] then follows from
-    [derives_tokens_canonical] (Proofs/SortDedup.v) under key-functionality, plus equivariance
-    of [collect_type_ids] as a set - not done. *)
+    The full statement (several item-eligible entries per path, recursive derives) is
+    [C17_permutation_tokens] at the end of this file; it needs the consistency hypotheses this
+    version does without. *)
 Theorem C17_permutation_tokens_partial :
   forall pi r s, renumbering (N.of_nat (List.length r)) pi ->
     forall teq teq' m1 m2,
